@@ -119,6 +119,7 @@ class CurveCtx:
         self.pw = [float(x) for x in self.gamma.pw_start]
         self.L = float(self.gamma.gamma_length)
         self.straight = name in STRAIGHT
+        self.closed = bool(getattr(self.gamma, "closed", True))
         self.meshes = []
         self._D = {}
 
@@ -980,6 +981,45 @@ def _c07_points(res, cctx, mctx, tr, pts):
         _guard(res, cctx, "evaluate-vs-exact/" + zone, cls, payload, body)
 
 
+def _c07_seam(res, cctx, mctx, tr, times):
+    """closed curves: x_hat = 0 and x_hat = L are the same boundary point, so evaluate must give the same value there (to the
+    tolerance of the zone the point lies in: 1e-8 each when the trial element touches the seam, i.e. the point is an end point of
+    the closed element; the far-field tolerance otherwise)"""
+    dtr = cctx.desc(tr)
+    t0, t1, xa, xb, piece = dtr
+    L = cctx.L
+    SL = mctx.SLq
+    gam = cctx.gamma
+    touches = xa == 0 or xb == L
+    tol = 2 * (C07_TOL["in"] if touches else C07_TOL["far"])
+    for t in times:
+        if t <= t0:
+            continue
+        cls = "{}/{}".format("seam-end-point" if touches else "seam-far", "t<=t1" if t <= t1 else "t>t1")
+        payload = dict(kind="c07s", trial=dtr, t=t, tol=tol)
+
+        def body():
+            v0 = SL.evaluate(tr, t, 0.0, gam.eval(0.0))
+            vL = SL.evaluate(tr, t, L, gam.eval(L))
+            p = dict(payload, v0=float(v0), vL=float(vL))
+            err = abs(v0 - vL) / max(abs(v0), abs(vL), C07_FLOOR)
+            res.agg(cctx.name, "seam-identification").add(err, tol, cls, hash((cls, dtr, t)) if v0 != 0 else None, p)
+        _guard(res, cctx, "seam-identification", cls, payload, body)
+
+
+def _c07_seam_replay(cctx, p):
+    return _prelude(cctx) + '''
+tr = {tr}
+SLq._init_elems([tr])
+t, L = {t}, gamma.gamma_length
+v0 = SLq.evaluate(tr, t, 0.0, gamma.eval(0.0))
+vL = SLq.evaluate(tr, t, L, gamma.eval(L))
+err = abs(v0 - vL) / max(abs(v0), abs(vL), {floor!r})
+observed = dict(v0=v0, vL=vL, err=err, tol={tol!r})
+violated = not (err <= {tol!r})
+'''.format(tr=_dsrc(p["trial"]), t=_f(p["t"]), floor=C07_FLOOR, tol=p["tol"])
+
+
 def _c07_point_replay(cctx, p):
     return _prelude(cctx) + '''
 tr = {tr}
@@ -1114,6 +1154,8 @@ def _worker(task):
             _c04_points(res, cctx, mctx, pool[it[2]], it[3])
         elif kind == "c07pt":
             _c07_points(res, cctx, mctx, pool[it[2]], it[3])
+            if cctx.closed:
+                _c07_seam(res, cctx, mctx, pool[it[2]], sorted({t for t, _ in it[3]}))
         elif kind == "c07int":
             _, _, i, j, cls = it
             tr, te = pool[i], pool[j]
@@ -1266,6 +1308,8 @@ def _replay_for(cctx, clause, p):
         return _c07_point_replay(cctx, p)
     if k == "c07i":
         return _c07_integral_replay(cctx, p)
+    if k == "c07s":
+        return _c07_seam_replay(cctx, p)
     raise KeyError(k)
 
 
@@ -1334,6 +1378,8 @@ def run(chk, prop, tier="quick", seed=0):
         "positive": "closed-form value > 1e-250 => quadrature value > 0",
         "evaluate-vs-exact": "|evaluate - evaluate_exact|/max(|exact|,1e-9) <= 1e-8 (closed element) / 5e-4 "
                              "(>= 1% outside) / 2e-3 (between); h_x^2/tau <= 16; same straight piece",
+        "seam-identification": "closed curves: |evaluate(x_hat = 0) - evaluate(x_hat = L)| / max(|values|, 1e-9) <= 2e-8 when the trial "
+                               "element touches the seam, 1e-3 otherwise (the same boundary point)",
         "integral-of-evaluate": "|composite Gauss integral over the test element of evaluate(trial, ., .) - "
                                 "bilform(trial, test)| <= tol*sqrt(D_test*D_trial), tol = {:g} for disjoint/touching space "
                                 "intervals, {:g} for identical/nested ones (unchanged repo: 1.1e-9 / 7.3e-7)".format(
